@@ -590,16 +590,25 @@ theorem rel_loadPatterns (ps : List (List Char)) (c : CHyph) (h : Hyph) (r : Rel
     obtain ⟨r2, n2⟩ := ih (cLoadPattern c p) (loadPattern h p) r1 (by omega)
     exact ⟨r2, by simp only [List.foldl_cons]; omega⟩
 
+theorem rel_insertExceptions' (es : List (List Char)) (c : CHyph) (h : Hyph) (r : Rel c h)
+    (hlt : c.trie.next
+      + (es.map (fun e => (excScan e [excNo] [.start]).2.length + 1)).sum < rootV) :
+    Rel (es.foldl cInsertException c) (es.foldl insertException h) ∧
+    (es.foldl cInsertException c).trie.next
+      ≤ c.trie.next + (es.map (fun e => (excScan e [excNo] [.start]).2.length + 1)).sum := by
+  induction es generalizing c h with
+  | nil => exact ⟨r, by simp⟩
+  | cons e es ih =>
+    simp only [List.map_cons, List.sum_cons] at hlt ⊢
+    obtain ⟨r1, n1⟩ := rel_insertException c h e r (by omega)
+    obtain ⟨r2, n2⟩ := ih (cInsertException c e) (insertException h e) r1 (by omega)
+    exact ⟨r2, by simp only [List.foldl_cons]; omega⟩
+
 theorem rel_insertExceptions (es : List (List Char)) (c : CHyph) (h : Hyph) (r : Rel c h)
     (hlt : c.trie.next
       + (es.map (fun e => (excScan e [excNo] [.start]).2.length + 1)).sum < rootV) :
-    Rel (es.foldl cInsertException c) (es.foldl insertException h) := by
-  induction es generalizing c h with
-  | nil => exact r
-  | cons e es ih =>
-    simp only [List.map_cons, List.sum_cons] at hlt
-    obtain ⟨r1, n1⟩ := rel_insertException c h e r (by omega)
-    exact ih (cInsertException c e) (insertException h e) r1 (by omega)
+    Rel (es.foldl cInsertException c) (es.foldl insertException h) :=
+  (rel_insertExceptions' es c h r hlt).1
 
 theorem rel_build (ps es : List (List Char)) (hlt : edgeCount ps es < rootV) :
     Rel (cBuild ps es) (build ps es) := by
